@@ -47,6 +47,11 @@ def main():
     else:
         m = re.search(r"(\./pkg/[\w/\-]+|\./internal[\w/\-]*|\./cmd/[\w/\-]+)", cmd)
         pkgdir = m.group(1)[2:].rstrip("/") if m else None
+    m0 = re.search(r"cd (pkg/[\w/\-]+|cmd/[\w/\-]+|internal[\w/\-]*)", cmd)
+    if m0 and not meta.get("demo_files"):
+        pkgdir = m0.group(1).rstrip("/")
+    if not pkgdir and meta.get("files_changed"):
+        pkgdir = os.path.dirname(meta["files_changed"][0])
     if not pkgdir:
         print("cannot determine demo package from", cmd); return 2
     m = re.search(r"-run[ =]+'?\"?([\w|^$()]+)", cmd)
@@ -62,7 +67,19 @@ def main():
         res["patch_applies"] = rc == 0
         if rc:
             print("patch does not apply:", out); return 1
+        def pkgname(path):
+            for line in open(path, errors="replace"):
+                if line.startswith("package "):
+                    return line.split()[1]
+            return ""
+        want = ""
+        for f in sorted(os.listdir(os.path.join(wt, pkgdir))):
+            if f.endswith(".go"):
+                want = pkgname(os.path.join(wt, pkgdir, f))
+                break
         for f in demos:
+            if want and pkgname(os.path.join(d, f)).replace("_test", "") != want.replace("_test", ""):
+                continue  # a supporting demo that belongs to another package
             shutil.copy(os.path.join(d, f), os.path.join(wt, pkgdir, f))
         moddir = "cmd/application" if pkgdir.startswith("cmd/application") else ("cmd/registration-server" if pkgdir.startswith("cmd/registration-server") else "")
         rel = "./" + os.path.relpath(pkgdir, moddir or ".")
@@ -79,7 +96,7 @@ def main():
         for t in touched:
             tmod = "cmd/application" if t.startswith("cmd/application") else ("cmd/registration-server" if t.startswith("cmd/registration-server") else "")
             trel = "./" + os.path.relpath(t, tmod or ".")
-            rc, out = sh("go test -vet=off -count=1 -skip 'TestSeedDemo|TestConjureLibConfigResolveBlocklisted|TestConcurrentProxy' %s" % trel, os.path.join(wt, tmod))
+            rc, out = sh("go test -vet=off -count=1 -skip 'TestSeedDemo|TestConjureLibConfigResolveBlocklisted|TestConcurrentProxy|TestZMQ|TestZmq' %s" % trel, os.path.join(wt, tmod))
             if rc:
                 ok_existing = False
                 notes.append("%s: %s" % (t, out[-600:]))
